@@ -59,7 +59,7 @@ def run(ck):
                  "entered only after every block had its synchronous initialisation; all loops "
                  "cover all sequential blocks", 'M0', 3)
     R5 = ck.rule('R05.5', "async selection (uninitialised, has init_async, positive time-out) and "
-                 "bounded wait (wait_for with remaining time, longest time-out first)", 'M0', 4)
+                 "bounded wait (wait_for with remaining time, longest time-out first)", 'M0', 5)
     R6 = ck.rule('R05.6', "failure => error: initialisation errors are re-raised; an "
                  "uninitialised block raises EdzedCircuitError", 'M0', 3)
     R7 = ck.rule('R05.7', "wait_init() returns normally only for a running, initialised circuit: "
@@ -329,6 +329,44 @@ def run(ck):
                         len(v.args) == 2 and 'timeout' in norm(v.args[1]) and \
                         ('get_time()' in norm(v.args[1]) or 'time()' in norm(v.args[1]))
                     ok = ok and good
+    # the elapsed time is measured from ONE reference point taken before the loop: the waits share
+    # a single budget (otherwise each task would get its full time-out and the waits add up)
+    from sa.dataflow import node_defs as _nd
+    tloops = [n for n in gt.nodes if n.kind == 'for' and isinstance(n.ast.iter, ast.Call)
+              and call_name(n.ast.iter) == 'sorted']
+    shared = bool(awaits) and bool(tloops)
+    refname = None
+    if shared:
+        for n in awaits:
+            for r in node_roots(n):
+                for x in walk_shallow(r):
+                    if isinstance(x, ast.Await) and isinstance(x.value, ast.Call) and len(x.value.args) == 2:
+                        names = [y.id for y in walk_shallow(x.value.args[1]) if isinstance(y, ast.Name)]
+                        refs = [nm for nm in names if nm not in ('timeout', 'get_time')]
+                        refname = refs[0] if len(refs) == 1 else None
+        if refname is None:
+            shared = False
+        else:
+            rdefs = [n for n in gt.nodes if n.kind in ('stmt', 'for', 'with') and refname in _nd(n)]
+            body = gt.reachable_from(gt.nodes[[v for v, lab in gt.succ[tloops[0].id] if lab == 'iter'][0]],
+                                     avoid=[tloops[0]])
+            shared = len(rdefs) == 1 and rdefs[0].id not in body and gt.dominates(rdefs[0], tloops[0]) \
+                and isinstance(rdefs[0].ast, ast.Assign) and norm(rdefs[0].ast.value) in ('get_time()',) \
+                and all(n.id in body for n in awaits)
+            # time-out minus elapsed: timeout - (now - start)  ==  timeout - now + start
+            for n in awaits:
+                for r in node_roots(n):
+                    for x in walk_shallow(r):
+                        if isinstance(x, ast.Await) and isinstance(x.value, ast.Call) and len(x.value.args) == 2:
+                            shared = shared and _linear_form(x.value.args[1]) == {'timeout': 1, 'get_time()': -1,
+                                                                                 refname: 1}
+    ck.ob(R5, f"{rtf.fid} :: one shared time budget", shared,
+          f"remaining = timeout - (now - {refname}) with `{refname}` taken once before the loop: "
+          f"the total wait is bounded by the largest time-out" if shared else
+          "the reference time of the remaining-time computation is not taken exactly once before "
+          "the loop (each task would get its full time-out: the waits add up beyond the largest "
+          "init_timeout), or the expression is not timeout - elapsed", rtf,
+          awaits[0].ast if awaits else rtf.node)
     ck.ob(R5, f"{rtf.fid} :: bounded waits", ok,
           "every await is asyncio.wait_for(task, <time-out minus elapsed time>)" if ok else
           "a task is awaited without a time-out derived from the block's time-out and the elapsed "
@@ -384,3 +422,21 @@ def run(ck):
           "wait_init() can return normally although the simulation has already failed (only "
           "the task's done() state is tested; the task may still be cleaning up)", wi, wi.node,
           witness=path_witness(gw, p))
+
+
+def _linear_form(e):
+    """Coefficients of a +/- combination of atomic terms (names and calls), e.g.
+    `timeout - get_time() + start_time` -> {'timeout': 1, 'get_time()': -1, 'start_time': 1}."""
+    out = {}
+
+    def walk(x, sign):
+        if isinstance(x, ast.BinOp) and isinstance(x.op, (ast.Add, ast.Sub)):
+            walk(x.left, sign)
+            walk(x.right, sign if isinstance(x.op, ast.Add) else -sign)
+        elif isinstance(x, ast.UnaryOp) and isinstance(x.op, ast.USub):
+            walk(x.operand, -sign)
+        else:
+            k = norm(x)
+            out[k] = out.get(k, 0) + sign
+    walk(e, 1)
+    return {k: v for k, v in out.items() if v != 0}
